@@ -332,7 +332,9 @@ def scenarios(tier):
         S.append(dict(N=N, shape=(1,), cap=2, queries=[N], nq=3, max_paths=6000))
     S.append(dict(N=4, shape=(1,), cap=2, queries=[2, 4], nq=2))
     for c in range(1, 5 if tier == 'quick' else 7):
-        S.append(dict(N=c + 1, shape=(1,), cap=2, queries=list(range(1, c + 2)), max_steps=c))
+        # a query after every update forks (j+2)-fold each: all positions for short histories, the ends for long ones
+        qs = list(range(1, c + 2)) if c <= 3 else [1, c, c + 1]
+        S.append(dict(N=c + 1, shape=(1,), cap=2, queries=qs, max_steps=c, max_paths=8000))
     if tier == 'thorough':
         for N in (10, 12):
             S.append(dict(N=N, shape=(1,), cap=2, queries=[N], max_paths=200))
